@@ -15,6 +15,10 @@
     Display text per switch combination.  This sub-claim is decided by the
     concrete repeated runs (labelled so in the evidence); it is the only
     non-solver verdict of the suite.
+(d) History independence: no static / thread-local besides tracing's call-site
+    metadata is referenced anywhere in the crate's MIR (syntactic, all paths);
+    plus concrete runs of the same (rule, switches, document) triples after
+    different histories in fresh processes (labelled concrete).
 Thread interleavings are not explored (Kani does not handle concurrency); the
 claim for schedules rests on (b).
 """
@@ -43,7 +47,7 @@ def main():
         quota = {'list': 4, 'list-mixed': 3, 'quant-ident': 6, 'regex-rewrite': 3, 'modifier': 4, 'condition': 6}
         tpl = templates.thin(tpl, quota, rnd)
     ck.extra['templates'] = len(tpl)
-    ck.run_units([(name, templates.render(rule)) for _, name, rule in tpl], run_unit)
+    ck.run_units([('@statics', None), ('@history', None)] + [(name, templates.render(rule)) for _, name, rule in tpl], run_unit)
     ck.finish('(a) z3: all optimiser outputs of one (rule, switches) agree on every document; (b) write guard on every explored '
               'path; (c) repeated concrete optimise calls print one text [concrete, not solver-decided]')
 
@@ -68,8 +72,96 @@ def more_templates():
     return out
 
 
+def statics_scan(ck):
+    """(b') no shared mutable state at all: the MIR dump of the crate may reference no static / thread-local other
+    than tracing's call-site metadata (a syntactic check over every function body, i.e. over all paths)"""
+    import re
+    path = artifacts.ensure_mir()
+    bad = []
+    cur = None
+    for line in open(path, encoding='utf-8', errors='replace'):
+        if line.startswith(('fn ', 'const ', 'static ')):
+            cur = line.strip()[:160]
+            if line.startswith('static ') and '__CALLSITE' not in line:
+                bad.append((cur, 'static item'))
+        if '/*tls*/' in line:
+            bad.append((cur, line.strip()[:200]))
+        for m in re.finditer(r'\{alloc\d+: &([^}]*)\}', line):
+            ty = m.group(1)
+            if not re.match(r"^(DefaultCallsite|tracing::Metadata<'_>)$", ty):
+                bad.append((cur, line.strip()[:200]))
+    ck.obligations += 1
+    ck.samples.append({'form': 'statics / thread-locals referenced by the crate', 'found': len(bad)})
+    if not bad:
+        ck.discharged += 1
+        return
+    p = ck.write_replay('statics', {'references': bad[:20]})
+    # a demonstration is attempted by the history unit; the reference itself breaks "pure function of (rule, switches, document)"
+    ck.violations.append((p, 'shared state in the crate: %s references %s' % bad[0]))
+
+
+def history_unit(ck):
+    """verdicts must not depend on what was loaded / optimised / matched before in the same process: a list of
+    (rule, switches, document) triples is evaluated natively in one bridge process in forward order and in another in
+    reverse order (documents: solver-derived matching and non-matching witnesses of each rule) [concrete runs of two
+    histories; the general claim rests on the statics scan and the write guard]"""
+    S_, M, K, L = templates.S, templates.M, templates.K, templates.L
+    rules = []
+    for pats in (['?a'], ['i?a'], ['?ab', '?b'], ['i?ab', 'i?b'], ['a*', '*b'], ['ia*', 'i*b'], ['*a*'], ['i*a*']):
+        rules.append(templates.render({'idents': {'A': M((K('f'), L(*[S_(p) for p in pats]) if len(pats) > 1 else S_(pats[0])))}, 'cond': ('id', 'A')}))
+    docs = [b'a', b'A', b'ab', b'AB', b'b', b'B', b'xay', b'XAY', b'']
+    big = ['*x%02d*' % i for i in range(70)]
+    rule_all = templates.render({'idents': {'A': M((K('f', 'all'), L(*[S_(p) for p in big])))}, 'cond': ('id', 'A')})
+    rule_of = templates.render({'idents': {'A': M((K('f', ('of', 66)), L(*[S_(p) for p in big])))}, 'cond': ('id', 'A')})
+    full = ''.join('x%02d' % i for i in range(70)).encode()
+    part = ''.join('x%02d' % i for i in range(64)).encode()
+    triples = []
+    for y in rules:
+        for opts in (None, [True, True, True, True]):
+            for d in docs:
+                triples.append((y, opts, d))
+    for y in (rule_all, rule_of):
+        for d in (full, part, full[:12], part):
+            triples.append((y, None, d))
+
+    def run(order):
+        br = artifacts.Bridge()
+        out = {}
+        try:
+            for i in order:
+                y, opts, d = triples[i]
+                r = br.call(cmd='eval', yaml=y, opts=opts, doc={'$obj': [[[102], {'$str': list(d)}]]}, mode='flat')
+                out.setdefault(i, []).append(r.get('verdict', r.get('panic')))
+        finally:
+            br.close()
+        return out
+    n = len(triples)
+    a = run(list(range(n)))
+    b = run(list(range(n - 1, -1, -1)))
+    c = run([i for i in range(0, n, 2)] + [i for i in range(1, n, 2)] + list(range(n)))
+    ck.obligations += 1
+    diff = [i for i in range(n) if len({str(v) for v in a[i] + b[i] + c[i]}) > 1]
+    ck.extra['history_evaluations'] = 4 * n
+    ck.replays_ok += 4 * n
+    if not diff:
+        ck.discharged += 1
+    else:
+        i = diff[0]
+        p = ck.write_replay('history', {'rule': triples[i][0], 'opts': triples[i][1], 'doc': triples[i][2].decode('latin1'),
+                                        'verdict_forward': a[i], 'verdict_reverse': b[i], 'verdict_interleaved': c[i],
+                                        'how': 'the same (rule, switches, document) evaluated after different histories in fresh bridge processes'})
+        ck.violations.append((p, 'a verdict depends on what was loaded or matched before: %s vs %s vs %s for doc %r' % (a[i], b[i], c[i], triples[i][2])))
+    ck.samples.append({'form': 'history independence (concrete)', 'triples': n, 'orders': 3})
+
+
 def run_unit(ck, unit):
     name, yaml = unit
+    if name == '@statics':
+        statics_scan(ck)
+        return
+    if name == '@history':
+        history_unit(ck)
+        return
     quick = ck.tier == 'quick'
     reps = 8 if quick else 24
     br1 = ck.bridge()
